@@ -266,8 +266,11 @@ package core
 //@   property C01,C07,C09
 //@   requires coreScanInv(core)
 //@   modifies anything
-// every error of the scanning phase - whichever call raised it - leaves with the live include stack attached (C07)
-//@   ensures[C07,@scan-error-traced] imp(result != nil, result.gTraced)
+// every error of the scanning phase that is located in the file being scanned - whichever call raised it - leaves with
+// the live include stack attached; an error located in another file (a directive of an including file whose check was
+// still pending: D30) is not given the stack of the file that happens to be scanned (that half is checked by the bounded
+// include-trace oracle only: the callees' contracts do not say which errors are new) (C07)
+//@   ensures[C07,@scan-error-traced] imp(result != nil && result.File == core.scanner.file, result.gTraced)
 //@ func (*JApiCore).scanProject loop 1
 //@   invariant coreScanInv(core) && core.scannersStack == old(core.scannersStack)
 
